@@ -834,7 +834,36 @@ def mk_choice(cond, a, b):
         h = getattr(type(x), 'choice_', None)
         if h is not None:
             return h(cond, a, b)
+    mm = _choice_as_minmax(cond, a, b)
+    if mm is not None:
+        return mm
     return Choice(cond, a, b)
+
+
+def _choice_as_minmax(cond, a, b):
+    """`np.where(a > b, a, b)` (a masked store, a conditional expression ..) of two symbolic numbers is max(a, b): the
+    selection idiom is evaluated as the canonical max / min atom instead of as a choice (DESIGN.md B18)"""
+    from .algebra import Poly, Rat, alg_equal
+    e = cond.expr if isinstance(cond, Unk) else None
+    if not (isinstance(e, tuple) and len(e) == 4 and e[0] == 'cmp' and e[1] in ('>', '>=', '<', '<=')):
+        return None
+    x, y = e[2], e[3]
+    if not all(isinstance(v, (int, Fr, Poly, Rat)) and not isinstance(v, bool) for v in (a, b, x, y)):
+        return None
+    try:
+        if alg_equal(x, y):
+            return None
+        if alg_equal(a, x) and alg_equal(b, y):
+            takes_left = True
+        elif alg_equal(a, y) and alg_equal(b, x):
+            takes_left = False
+        else:
+            return None
+    except Exception:
+        return None
+    greater = e[1] in ('>', '>=')
+    from .absint import sym_minmax
+    return sym_minmax('max' if greater == takes_left else 'min', [x, y])
 
 
 # ---------------------------------------------------------------- scalar kernel
